@@ -1410,9 +1410,10 @@ func (s *verifC1213Suite) TestVerifC12(c *C) {
 	defer vCleanupScratch()
 	chk := kit.New("C12", "exploration")
 	defer chk.Done(c)
-	chk.Rule("cases are settled refreshes inside generated histories (install, refresh to a new revision via the store or by revision, refresh to a kept revision, revert/revert-to leaving later revisions, refresh.retain rewritten between refreshes as unset / int 2..20 / legacy string, on classic and on core defaults; every 4th history drives the model's kernel snap with a generated boot in-use answer in the mock bootloader). A refresh is non-trivial when the garbage collection had something to decide (sequence at the limit, revert leftovers, boot answer, or discards observed); distinct = distinct (target kept?, target index, retain, retain kind, sequence length, current index, #discards, in-use positions, classic?, via)")
+	chk.Rule("cases are settled refreshes inside generated histories (install, refresh to a new revision via the store or by revision, refresh to a kept revision, revert/revert-to leaving later revisions, refresh.retain rewritten between refreshes as unset / int 2..20 / legacy string, on classic and on core defaults; every 4th history drives the model's kernel snap with a generated boot in-use answer in the mock bootloader), mixed with refreshes of the installed snap from a local file (an unpacked snap directory) through InstallPath / InstallPathMany / UpdatePathWithDeviceContext / TryPath: asserted side info with a not-yet-kept revision, with an already kept revision (now and then the current one), or name-only side info (snapd assigns the next x<N> local revision); after a sideload the store refreshes of that snap go through Update --amend. A refresh is non-trivial when the garbage collection had something to decide (sequence at the limit, revert leftovers, boot answer, or discards observed); distinct = distinct (target kept?, target index, retain, retain kind, sequence length, current index, #discards, in-use positions, classic?, via, path mode)")
 	vAssumptions(chk)
 	chk.Assume("boot in-use answers are produced by programming snap_kernel / snap_try_kernel of the mock bootloader before a kernel refresh; they may name any kept revision (current, older, a revert leftover) or a revision that is not kept")
+	chk.Assume("the local file of a path refresh is an unpacked snap directory (no mksquashfs here; meta/snap.yaml with the name, epoch 1* and, for the kernel, type: kernel); it is opened by the real backend.OpenSnapFile, mounted by the fake backend. The model's signed kernel is only sideloaded with asserted side info (snapd refuses an unasserted replacement)")
 	prof := &vProfile{prop: "C12", wRefreshNew: 42, wRefreshKept: 14, wRevert: 10, wRevertTo: 10, wBadRevert: 0, wRetain: 20, wToggle: 0, wProbe: 0, kernelEvery: 4,
 		wPathNew: 24, wPathKept: 6}
 	s.runHistories(c, chk, prof, kit.Scale(14, 60))
@@ -1428,6 +1429,15 @@ func (s *verifC1213Suite) TestVerifC12(c *C) {
 	chk.Floor("refresh_retain_string", 5)
 	chk.Floor("refresh_retain_unset", 3)
 	chk.Floor("refreshes_with_boot_in_use_answer", 5)
+	// local-file refreshes (per shard)
+	chk.Floor("path_refreshes_to_new", 20)
+	chk.Floor("path_refreshes_to_new_at_or_above_retain", 8)
+	chk.Floor("path_refreshes_to_new_at_or_above_retain_asserted", 3)
+	chk.Floor("path_refreshes_to_new_at_or_above_retain_unasserted", 2)
+	chk.Floor("path_refreshes_to_kept", 2)
+	chk.Floor("path_refreshes_with_revert_leftovers", 1)
+	chk.Floor("refresh_via_try", 1)
+	chk.Floor("refreshes_with_local_revisions_in_sequence", 15)
 	chk.MinDistinct(25)
 	s.noFailedChanges(chk)
 }
